@@ -249,7 +249,7 @@ def run(tier):
             return None
         r['observed']['A']['n_fail'] += 1
         return r
-    common.binding_selftest('c15', 'C15_Data', recs, _corrupt)
+    common.binding_selftest('c15', 'C15_Data', [r for r in recs if r['id'] not in rejects], _corrupt)
     rc = v.finish()
     kinds = {}
     for l in lays:
